@@ -242,10 +242,55 @@ func spliceCallee(c *ssa.Call, idx int, st stateAssume, depth int, hook func(ssa
 		}
 		return 0, false
 	}
+	// a return that lies on a branch which the assumed state rules out - the branch condition being a boolean
+	// parameter whose argument is a state test (isRoot(), the inlined flag) - does not count
+	feasible := func(rb *ssa.BasicBlock) bool {
+		for d := rb.Idom(); d != nil; d = d.Idom() {
+			ifi, ok := d.Instrs[len(d.Instrs)-1].(*ssa.If)
+			if !ok || len(d.Succs) != 2 {
+				continue
+			}
+			cnd := ifi.Cond
+			neg := false
+			if u, isU := cnd.(*ssa.UnOp); isU && u.Op == token.NOT {
+				cnd, neg = u.X, true
+			}
+			prm, isPrm := canon(cnd).(*ssa.Parameter)
+			if !isPrm || prm.Parent() != g {
+				continue
+			}
+			var arg ssa.Value
+			for i, q := range g.Params {
+				if q == prm && i < len(args) {
+					arg = args[i]
+				}
+			}
+			if arg == nil {
+				continue
+			}
+			val, rel := condUnder(arg, st)
+			if !rel {
+				continue
+			}
+			if neg {
+				val = !val
+			}
+			if edgeDominates(d, 0, rb) && !val {
+				return false
+			}
+			if edgeDominates(d, 1, rb) && val {
+				return false
+			}
+		}
+		return true
+	}
 	have := false
 	var val int64
 	for _, ret := range returnsOf(g) {
 		if cl, _ := classifyReturn(ret); cl == retError {
+			continue
+		}
+		if !feasible(ret.Block()) {
 			continue
 		}
 		if idx >= len(ret.Results) {
